@@ -26,7 +26,9 @@ ASSUMPTIONS = ['one representative rule per outcome class of the C01-C06 '
 RET = {'false': False, 'none': None, 'zero': 0, 'empty': '', 'list': [],
        'true': True, 'one': 1, 'str': 'x', 'tuple': ('t', 'c')}
 CLASSES = (['allow', 'deny', 'unknown', 'emptyset', 'scope'] +
-           ['ret-' + k for k in RET])
+           ['ret-' + k for k in RET] +
+           # a check OBJECT needs no named rules: empty rule store
+           ['eo-allow', 'eo-deny', 'eo-scope', 'eo-ret-str'])
 CALLS = []
 
 
@@ -66,6 +68,8 @@ def plan(tier, seed):
 
 
 def expected_class(cls):
+    if cls.startswith('eo-'):
+        cls = cls[3:]
     if cls in ('allow',) or cls in ('ret-true', 'ret-one', 'ret-str',
                                     'ret-tuple'):
         return 'allow'
@@ -111,7 +115,7 @@ def build(P, parse_rule, cls):
                 P.RuleDefault('svc:scope', '@', scope_types=['system'])]
     for k in RET:
         defaults.append(P.RuleDefault('svc:ret-' + k, 'vret:' + k))
-    if cls != 'emptyset':
+    if cls != 'emptyset' and not cls.startswith('eo-'):
         enf.register_defaults(defaults)
     enf.load_rules()
     return w, enf
@@ -119,6 +123,10 @@ def build(P, parse_rule, cls):
 
 def rule_for(P, parse_rule, cls, how):
     """(rule argument, registered?) or None when the combination is void."""
+    if cls.startswith('eo-'):
+        if how == 'name':
+            return None
+        cls = cls[3:]
     if how == 'name':
         if cls == 'unknown':
             return 'svc:unknown'
